@@ -248,5 +248,10 @@ func e1Scens(prop, tier string) []e1Scen {
 	tsa := mcfg("mpegts", false, 3, "aac44")
 	per := e1Scen{Prop: prop, Cfg: tsa, Alpha: alphaAudio(tsa), Mode: "periodic", Period: 2, Len: 430, Name: "ts-audio-only-periodic"}
 	out = append(out, e1Shard(per, shards)...)
+	// the same with 16 kHz audio and SegmentMinDuration = 100 access units exactly (6.4 s): the duration condition is met
+	// with equality at the very write that meets the count condition
+	tsa16 := mcfg("mpegts", false, 3, "aac16")
+	tsa16.SegMinMS = 6400
+	out = append(out, e1Scen{Prop: prop, Cfg: tsa16, Alpha: alphaAudio(tsa16)[:2], Mode: "periodic", Period: 2, Len: 330, Name: "ts-audio-only-boundary-periodic"})
 	return out
 }
